@@ -5,4 +5,4 @@ package sbi
 import "github.com/gin-gonic/gin"
 
 // VerifRouter exposes the gin engine built by newRouter to the verification harness.
-func (s *Server) VerifRouter() *gin.Engine { return s.router }
+func (s *Server) VerifRouter() *gin.Engine { return s.{{sbi.routerField}} }
